@@ -2,6 +2,8 @@ import Sentinel.Lemmas.EntryLedger
 import Sentinel.Lemmas.EntryPool
 import Sentinel.Lemmas.EntrySchedule
 import Sentinel.Lemmas.EntryReset
+import Sentinel.Lemmas.EntryResetLedger
+import Sentinel.Lemmas.EntryClock
 /-!
 # C01 — Entry/Exit accounting is conserved and correctly attributed
 (property theorems only; the simulation lemmas live in `Sentinel/Lemmas/Entry.lean`)
@@ -355,6 +357,172 @@ theorem nodemap_reset_irrelevant (fix : Bool) (s : St) (later : List TOp) :
 /-- the pooled model (the one the driver runs) performs the reset in step with the pool-free one -/
 theorem pooled_reset_refines {p : EntryPool.PSt} {s : St} (r : EntryPool.Rel p s) :
     EntryPool.Rel (EntryPool.resetNodes p) (resetNodes s) := EntryPool.rel_reset r
+
+/-! ## (2d) the account of histories WITH node-map resets
+
+A history with resets is a list of segments `segs` (newest segment first, every segment newest op first), a
+`stat.ResetResourceNodeMap()` between consecutive segments; `runSegs` runs it on the model (`resetNodes` between the
+segments).  `flat segs` is the reset-free history with the same account: the newest segment as it is, every older op with
+its entry *detached* (node slot of the prepare table replaced by a no-op).  The ledger of `flat segs` is the ledger of
+section (1), so all its corollaries apply; in words:
+
+* a resource's node ledger **restarts** at a reset (`reset_restarts_resource_ledger`: no node, no events, gauge 0, whatever
+  was in flight) and then counts exactly the entries made after it;
+* entries admitted before the reset complete on their own (old, unreachable) node: in `flat segs` they touch no resource
+  key (`touches_detach`), so their `exit` contributes nothing to the new node — and everything to the inbound node;
+* the **inbound** ledger is that of the same ops without any reset (`reset_keeps_inbound_ledger`). -/
+theorem accounting_with_resets (fix : Bool) (t0 : Nat) (segs : List (List TOp)) (h0 : 0 < t0)
+    (hm : MonoR t0 segs.flatten) (k : Key) (Iv now : Nat) (hnow : lastT t0 (flat segs) ≤ now) (hIv : Iv ≤ 10000) :
+    obsWindow (runSegs fix t0 segs) k Iv now = ledWindow fix (flat segs) k Iv now ∧
+    obsConc (runSegs fix t0 segs) k = ledConc fix (flat segs) k ∧
+    (runSegs fix t0 segs).log = recLog fix (flat segs) ∧
+    (∀ id, obsEntered (runSegs fix t0 segs) id = ledEntered (flat segs) id) ∧
+    (∀ id, (obsCtx (runSegs fix t0 segs) id).map (fun v => (v.1, coreE v.2)) =
+           (ledCtx (flat segs) id).map (fun v => (v.1, coreE v.2))) := by
+  have g := segs_flat fix t0 segs
+  have hmf : MonoR t0 (flat segs) := monoR_congr t0 _ _ (flat_times segs).symm hm
+  have hrev : (flat segs).reverse.reverse = flat segs := List.reverse_reverse _
+  have hm' : Mono t0 (flat segs).reverse := by unfold Mono; rw [hrev]; exact hmf
+  have hnow' : lastT t0 (flat segs).reverse.reverse ≤ now := by rw [hrev]; exact hnow
+  have w := window_refines_ledger fix t0 (flat segs).reverse h0 hm' k Iv now hnow' hIv
+  have c := conc_refines_ledger fix t0 (flat segs).reverse h0 hm' k
+  have l := reclog_refines_ledger fix t0 (flat segs).reverse h0 hm'
+  have x := fun id => ctx_refines_ledger fix t0 (flat segs).reverse h0 hm' id
+  unfold run at w c l x
+  simp only [hrev] at w c l x
+  have hnode : nodeOf (runSegs fix t0 segs) k = nodeOf (runR fix t0 (flat segs)) k := by
+    cases k with
+    | none => simp only [nodeOf, g.inb]
+    | some r => simp only [nodeOf, (g.nodes rfl).1]
+  refine ⟨?_, ?_, g.log.trans l, ?_, ?_⟩
+  · rw [← w]; unfold obsWindow; rw [hnode]
+  · rw [← c]; unfold obsConc; rw [hnode]
+  · intro id
+    rw [← (x id).2]
+    have he := g.ents id
+    unfold obsEntered
+    cases h1 : findE (runSegs fix t0 segs).ents id with
+    | none =>
+      cases h2 : findE (runR fix t0 (flat segs)).ents id with
+      | none => rfl
+      | some c' => rw [h1, h2] at he; simp at he
+    | some c1 =>
+      cases h2 : findE (runR fix t0 (flat segs)).ents id with
+      | none => rw [h1, h2] at he; simp at he
+      | some c' =>
+        rw [h1, h2] at he
+        obtain ⟨_, _, _, q4, _⟩ := (core_eq_iff _ _).mp (Option.some.inj he)
+        simp only [Option.map, q4]
+  · intro id
+    rw [← (x id).1]
+    have he := g.ents id
+    unfold obsCtx
+    cases h1 : findE (runSegs fix t0 segs).ents id with
+    | none =>
+      cases h2 : findE (runR fix t0 (flat segs)).ents id with
+      | none => rfl
+      | some c' => rw [h1, h2] at he; simp at he
+    | some c1 =>
+      cases h2 : findE (runR fix t0 (flat segs)).ents id with
+      | none => rw [h1, h2] at he; simp at he
+      | some c' =>
+        rw [h1, h2] at he
+        obtain ⟨q1, _, q3, _, q5⟩ := (core_eq_iff _ _).mp (Option.some.inj he)
+        simp only [q5]
+        split_ifs
+        · rfl
+        · simp only [Option.map, q1, q3]
+
+/-- at a reset every resource ledger is empty — no node, no events, gauge 0 — whatever was in flight -/
+theorem reset_restarts_resource_ledger (fix : Bool) (older : List TOp) (res : String) :
+    nodeExists (older.map detach) res = false ∧ evs fix (older.map detach) (some res) = [] ∧
+    gauge fix (older.map detach) (some res) = 0 :=
+  detached_resource_empty fix older res
+
+/-- the inbound ledger of a history with resets is that of the same ops without any reset -/
+theorem reset_keeps_inbound_ledger (fix : Bool) (segs : List (List TOp)) :
+    evs fix (flat segs) none = evs fix segs.flatten none ∧ gauge fix (flat segs) none = gauge fix segs.flatten none :=
+  inbound_flat fix segs
+
+/-- the code as it is, with resets, outside the known-finding region: on every node no panicking entry of `flat segs`
+    accounts on, the as-is model shows the demanded ledger -/
+theorem accounting_with_resets_partial (t0 : Nat) (segs : List (List TOp)) (h0 : 0 < t0)
+    (hm : MonoR t0 segs.flatten) (k : Key) (Iv now : Nat) (hnow : lastT t0 (flat segs) ≤ now) (hIv : Iv ≤ 10000)
+    (hk : panicFree (flat segs) k = true) :
+    obsWindow (runSegs false t0 segs) k Iv now = ledWindow true (flat segs) k Iv now ∧
+    obsConc (runSegs false t0 segs) k = ledConc true (flat segs) k := by
+  obtain ⟨a, b, _⟩ := accounting_with_resets false t0 segs h0 hm k Iv now hnow hIv
+  obtain ⟨e1, e2⟩ := ledger_fix_irrelevant (flat segs) k hk
+  refine ⟨?_, ?_⟩
+  · rw [a]; unfold ledWindow; rw [e1]
+  · rw [b]; unfold ledConc; rw [e2]
+
+/-! ## (2e) any clock
+
+The refinement theorems of (1) need clock readings that never decrease (the window sums are about time).  The gauges, the
+outcome of every `Entry`, and the error / input seen through every live entry do **not** depend on the clock at all: the
+same ops under any two clocks — readings may differ arbitrarily, step backwards, read 0 — give the same values.  Hence under
+any clock the gauge is the ledger's gauge of the same ops at a frozen clock, i.e. the number of live passed entries. -/
+theorem clock_independent (fix : Bool) (t0 t0' : Nat) (ops ops' : List TOp) (hops : ops.map (·.2) = ops'.map (·.2)) :
+    (∀ k, obsConc (run fix t0 ops) k = obsConc (run fix t0' ops') k) ∧
+    (∀ id, obsEntered (run fix t0 ops) id = obsEntered (run fix t0' ops') id) ∧
+    (∀ id, obsCtx (run fix t0 ops) id = obsCtx (run fix t0' ops') id) := by
+  have hr : ops.reverse.map (·.2) = ops'.reverse.map (·.2) := by
+    rw [List.map_reverse, List.map_reverse, hops]
+  have c := ceq_run fix t0 t0' ops.reverse ops'.reverse hr
+  unfold run
+  refine ⟨c.conc, ?_, ?_⟩
+  · intro id
+    have he := c.ents id
+    unfold obsEntered
+    cases h1 : findE (runR fix t0 ops.reverse).ents id with
+    | none =>
+      cases h2 : findE (runR fix t0' ops'.reverse).ents id with
+      | none => rfl
+      | some c' => rw [h1, h2] at he; simp at he
+    | some c1 =>
+      cases h2 : findE (runR fix t0' ops'.reverse).ents id with
+      | none => rw [h1, h2] at he; simp at he
+      | some c' =>
+        rw [h1, h2] at he
+        obtain ⟨_, _, _, q4, _⟩ := (unstart_eq_iff _ _).mp (Option.some.inj he)
+        simp only [Option.map, q4]
+  · intro id
+    have he := c.ents id
+    unfold obsCtx
+    cases h1 : findE (runR fix t0 ops.reverse).ents id with
+    | none =>
+      cases h2 : findE (runR fix t0' ops'.reverse).ents id with
+      | none => rfl
+      | some c' => rw [h1, h2] at he; simp at he
+    | some c1 =>
+      cases h2 : findE (runR fix t0' ops'.reverse).ents id with
+      | none => rw [h1, h2] at he; simp at he
+      | some c' =>
+        rw [h1, h2] at he
+        obtain ⟨q1, q2, _, _, q5⟩ := (unstart_eq_iff _ _).mp (Option.some.inj he)
+        simp only [q1, q2, q5]
+
+/-- the same ops with the clock frozen at 1 -/
+def freeze (ops : List TOp) : List TOp := ops.map fun x => (1, x.2)
+
+theorem mono_freeze (ops : List TOp) : Mono 1 (freeze ops) := by
+  unfold Mono freeze
+  rw [← List.map_reverse]
+  induction ops.reverse with
+  | nil => trivial
+  | cons x r ih =>
+    refine ⟨?_, ih⟩
+    cases r <;> simp [lastT]
+
+/-- **under any clock** — no monotonicity, any `t0` — every gauge is the ledger's gauge of the same ops (frozen clock);
+with `gauge_is_live_count` / `gauge_zero_when_idle` applied to `freeze ops`: the number of live passed entries, never
+negative, zero when idle (for `fix = true`, or on `panicFree` nodes) -/
+theorem gauge_any_clock (fix : Bool) (t0 : Nat) (ops : List TOp) (k : Key) :
+    obsConc (run fix t0 ops) k = ledConc fix (freeze ops).reverse k := by
+  have h1 := (clock_independent fix t0 1 ops (freeze ops) (by simp [freeze, Function.comp_def])).1 k
+  rw [h1]
+  exact conc_refines_ledger fix 1 (freeze ops) (by decide) (mono_freeze ops) k
 
 /-! ## (3) the statement for the code as it is, and where it fails -/
 
